@@ -100,8 +100,14 @@ impl SuspenseTaskGuard {
 
     /// Create a new suspense task guard from a suspense scope.
     pub fn from_scope(mut scope: SuspenseScope) -> Self {
-        scope.tasks_remaining += 1;
-        Self { scope: Some(scope) }
+        // The suspense scope may have been disposed since it was remembered (e.g. by a resource
+        // that was read under it): there is nothing left to suspend then.
+        if scope.tasks_remaining.is_alive() {
+            scope.tasks_remaining += 1;
+            Self { scope: Some(scope) }
+        } else {
+            Self { scope: None }
+        }
     }
 }
 
